@@ -242,13 +242,24 @@ fn send_request_failed_error(
 
 /// The analyzer reports positions as byte offsets into a line, while LSP positions
 /// count UTF-16 code units: the two differ as soon as non-ASCII text precedes the
-/// position. An offset inside a multi-byte character is floored to its start.
-fn utf16_offset(line: &str, byte_offset: usize) -> u32 {
-    let mut end = byte_offset.min(line.len());
-    while !line.is_char_boundary(end) {
-        end -= 1;
+/// position. This builds, in one pass, the UTF-16 offset of every byte offset of
+/// `line` (an offset inside a multi-byte character maps to the character's start),
+/// so that converting all the tokens of a line stays linear in its length.
+fn utf16_offsets(line: &str) -> Vec<u32> {
+    let mut table = Vec::with_capacity(line.len() + 1);
+    let mut units = 0u32;
+    for ch in line.chars() {
+        for _ in 0..ch.len_utf8() {
+            table.push(units);
+        }
+        units += ch.len_utf16() as u32;
     }
-    line[..end].encode_utf16().count() as u32
+    table.push(units);
+    table
+}
+
+fn utf16_offset(table: &[u32], byte_offset: usize) -> u32 {
+    table[byte_offset.min(table.len() - 1)]
 }
 
 fn get_semantic_tokens(analyzer: &SourceFileAnalyzer) -> SemanticTokens {
@@ -261,11 +272,12 @@ fn get_semantic_tokens(analyzer: &SourceFileAnalyzer) -> SemanticTokens {
             .map(|line| line.as_str())
             .unwrap_or("");
         let mut prev_token_start = 0;
+        let offsets = utf16_offsets(source_line);
         for (abasic_token_type, range) in line {
             let delta_line = (line_number - prev_line_number) as u32;
             prev_line_number = line_number;
-            let token_start = utf16_offset(source_line, range.start);
-            let token_end = utf16_offset(source_line, range.end);
+            let token_start = utf16_offset(&offsets, range.start);
+            let token_end = utf16_offset(&offsets, range.end);
             let delta_start = token_start.saturating_sub(prev_token_start);
             prev_token_start = token_start;
             let length = token_end.saturating_sub(token_start);
@@ -294,9 +306,10 @@ fn analyze_source_file(analyzer: &SourceFileAnalyzer) -> Vec<Diagnostic> {
     for message in messages {
         if let Some((line, range)) = source_map.map_to_source(&message) {
             let source_line = source_lines.get(line).map(|line| line.as_str()).unwrap_or("");
+            let offsets = utf16_offsets(source_line);
             let diag_range = Range::new(
-                Position::new(line as u32, utf16_offset(source_line, range.start)),
-                Position::new(line as u32, utf16_offset(source_line, range.end)),
+                Position::new(line as u32, utf16_offset(&offsets, range.start)),
+                Position::new(line as u32, utf16_offset(&offsets, range.end)),
             );
             let (severity, content) = match message {
                 DiagnosticMessage::Warning(_line, _loc, msg) => {
